@@ -203,105 +203,143 @@ def r172(ctx, rep):
     f = ctx.func(NLC_CALL)
     # bound variables: xl = pc.bounds[0][ub_idx] ; xu = pc.bounds[1][ub_idx]
     bound_side = {}
+
+    def side_of_expr(v):
+        out = set()
+        for sub in ast.walk(v):
+            if isinstance(sub, ast.Subscript) and isinstance(sub.value, ast.Attribute) and sub.value.attr == "bounds" and const_value(sub.slice) in (0, 1):
+                out.add("lo" if const_value(sub.slice) == 0 else "hi")
+        return out
     for node in ast.walk(f.node):
         if isinstance(node, ast.Assign) and len(node.targets) == 1 and isinstance(node.targets[0], ast.Name):
-            v = node.value
-            for sub in ast.walk(v):
-                if isinstance(sub, ast.Subscript) and isinstance(sub.value, ast.Attribute) and sub.value.attr == "bounds" and const_value(sub.slice) in (0, 1):
-                    bound_side.setdefault(node.targets[0].id, set()).add("lo" if const_value(sub.slice) == 0 else "hi")
-        if isinstance(node, ast.Assign) and isinstance(node.targets[0], (ast.Tuple, ast.List)) and isinstance(node.value, (ast.Tuple, ast.List)):
+            sd = side_of_expr(node.value)
+            if sd:
+                bound_side.setdefault(node.targets[0].id, set()).update(sd)
+        if isinstance(node, ast.Assign) and isinstance(node.targets[0], (ast.Tuple, ast.List)) and isinstance(node.value, (ast.Tuple, ast.List)) and len(node.targets[0].elts) == len(node.value.elts):
             for t, v in zip(node.targets[0].elts, node.value.elts):
-                if isinstance(t, ast.Name) and isinstance(v, ast.Subscript) and isinstance(v.value, ast.Attribute) and v.value.attr == "bounds" and const_value(v.slice) in (0, 1):
-                    bound_side.setdefault(t.id, set()).add("lo" if const_value(v.slice) == 0 else "hi")
+                if isinstance(t, ast.Name) and side_of_expr(v):
+                    bound_side.setdefault(t.id, set()).update(side_of_expr(v))
+
+    def side_of(e):
+        """side of a bound operand: a name defined from pc.bounds[k] or such an expression"""
+        if isinstance(e, ast.Name):
+            return bound_side.get(e.id)
+        sd = side_of_expr(e)
+        return sd or None
+
+    def mask_info(v):
+        """(side, ok) for a mask expression `lower > -inf` / `upper < inf` / isfinite(bound)"""
+        p = _cmp_parts(v)
+        if p:
+            l, op, r = p
+            sd = side_of(l)
+            rt = norm(r).replace(" ", "")
+            if sd == {"lo"} and op == ">" and rt in ("-np.inf", "-numpy.inf", "-inf"):
+                return sd, True
+            if sd == {"hi"} and op == "<" and rt in ("np.inf", "numpy.inf", "inf"):
+                return sd, True
+            if sd:
+                return sd, False
+        if _short(v) == "isfinite" and v.args and side_of(v.args[0]):
+            return side_of(v.args[0]), True
+        return None
+    # the masks are the index sets of the slack-shaped expressions B[m] - V[m] / V[m] - B[m]
+    mask_names = set()
+    for node in ast.walk(f.node):
+        if isinstance(node, ast.BinOp) and isinstance(node.op, ast.Sub):
+            l, r = node.left, node.right
+            if isinstance(l, ast.Subscript) and isinstance(r, ast.Subscript) and isinstance(l.slice, ast.Name) and norm(l.slice) == norm(r.slice) and (side_of(l.value) or side_of(r.value)):
+                mask_names.add(l.slice.id)
     masks = {}
     for node in ast.walk(f.node):
-        if isinstance(node, ast.Assign) and len(node.targets) == 1 and isinstance(node.targets[0], ast.Name) and node.targets[0].id.startswith("finite"):
-            masks[node.targets[0].id] = node
+        if isinstance(node, ast.Assign) and len(node.targets) == 1 and isinstance(node.targets[0], ast.Name) and node.targets[0].id in mask_names:
+            mi_ = mask_info(node.value)
+            if mi_ is None:
+                # a mask of another shape: which limit does it look at?
+                sd_ = set()
+                for x in ast.walk(node.value):
+                    if isinstance(x, ast.Name) and bound_side.get(x.id):
+                        sd_ |= bound_side[x.id]
+                mi_ = (sd_ or None, False)
+            masks[node.targets[0].id] = (node, mi_)
     if len(masks) < 2:
         raise AnalysisError("NonlinearConstraints.__call__: finite-limit masks not found")
-    for name, node in masks.items():
-        v = node.value
-        desc = f"{f.local}:{node.lineno} {name} = {norm(v)}"
-        p = _cmp_parts(v)
-        good = False
-        side = None
-        if p and isinstance(p[0], ast.Name):
-            l, op, r = p
-            side = bound_side.get(l.id)
-            rt = norm(r).replace(" ", "")
-            if op == ">" and rt in ("-np.inf", "-numpy.inf", "-inf") and side == {"lo"}:
-                good = True
-            if op == "<" and rt in ("np.inf", "numpy.inf", "inf") and side == {"hi"}:
-                good = True
-        if _short(v) == "isfinite" and v.args and isinstance(v.args[0], ast.Name):
-            good = True
-            side = bound_side.get(v.args[0].id)
+    for name, (node, (sd, good)) in masks.items():
+        desc = f"{f.local}:{node.lineno} {name} = {norm(node.value)}"
         if good:
             rep.ok("R17.2", desc + " (NaN and infinite limits dropped)")
         else:
             rep.bad("R17.2", desc)
             rep.finding("R17.2", f, norm(node), node.lineno,
                         "the mask of usable limits must be `lower > -inf` / `upper < inf` (or isfinite): only these drop NaN limits as documented; "
-                        f"found `{norm(v)}`")
-    # slacks
+                        f"found `{norm(node.value)}`")
+    # slack expressions, wherever they are written: B[m] - V[m] / V[m] - B[m]
     slacks = []
     for node in ast.walk(f.node):
-        if isinstance(node, ast.Assign) and isinstance(node.value, ast.BinOp) and isinstance(node.value.op, ast.Sub):
-            l, r = node.value.left, node.value.right
+        if isinstance(node, ast.BinOp) and isinstance(node.op, ast.Sub):
+            l, r = node.left, node.right
             if isinstance(l, ast.Subscript) and isinstance(r, ast.Subscript) and norm(l.slice) == norm(r.slice) and norm(l.slice) in masks:
                 slacks.append((node, l, r, norm(l.slice)))
     if len(slacks) < 2:
         rep.bad("R17.2", "slack expressions")
         rep.finding("R17.2", f, "slack expressions", f.node.lineno, "the lower/upper slack expressions `bound[mask] - value[mask]` / `value[mask] - bound[mask]` were not found (masks of both operands must agree)")
+    kinds = set()
     for node, l, r, m in slacks:
-        lname = l.value.id if isinstance(l.value, ast.Name) else "?"
-        rname = r.value.id if isinstance(r.value, ast.Name) else "?"
-        mv = masks[m].value
-        mside = None
-        p = _cmp_parts(mv)
-        if p and isinstance(p[0], ast.Name):
-            mside = bound_side.get(p[0].id)
-        elif _short(mv) == "isfinite" and isinstance(mv.args[0], ast.Name):
-            mside = bound_side.get(mv.args[0].id)
-        desc = f"{f.local}:{node.lineno} `{norm(node.value)}`"
-        if bound_side.get(lname) == {"lo"} and mside == {"lo"} and rname not in bound_side:
+        mside = masks[m][1][0]
+        ls, rs = side_of(l.value), side_of(r.value)
+        desc = f"{f.local}:{node.lineno} `{norm(node)}`"
+        if ls == {"lo"} and mside == {"lo"} and not rs:
             rep.ok("R17.2", desc + " = lower bound - value under the finite-lower mask")
-        elif bound_side.get(rname) == {"hi"} and mside == {"hi"} and lname not in bound_side:
+            kinds.add("lo")
+        elif rs == {"hi"} and mside == {"hi"} and not ls:
             rep.ok("R17.2", desc + " = value - upper bound under the finite-upper mask")
+            kinds.add("hi")
         else:
             rep.bad("R17.2", desc)
             rep.finding("R17.2", f, norm(node), node.lineno,
                         "slack orientation: the internal inequality must be (lower - value) under the finite-lower mask and (value - upper) under the finite-upper mask; "
-                        f"found `{norm(node.value)}` with mask on the {'lower' if mside == {'lo'} else 'upper' if mside == {'hi'} else '?'} limit")
+                        f"found `{norm(node)}` with mask on the {'lower' if mside == {'lo'} else 'upper' if mside == {'hi'} else '?'} limit")
     # both slacks are appended to the inequality list
-    n_app = 0
-    for node in ast.walk(f.node):
-        if isinstance(node, ast.Call) and isinstance(node.func, ast.Attribute) and node.func.attr == "append" and isinstance(node.func.value, ast.Name) and node.func.value.id == "c_ub":
-            n_app += 1
-    if n_app >= 2:
+    def feeds_append(expr):
+        st = expr
+        while getattr(st, "_parent", None) is not None and not isinstance(st, ast.stmt):
+            st = st._parent
+        if isinstance(st, ast.Expr) and isinstance(st.value, ast.Call) and isinstance(st.value.func, ast.Attribute) and st.value.func.attr == "append":
+            return norm(st.value.func.value)
+        if isinstance(st, ast.Assign) and len(st.targets) == 1 and isinstance(st.targets[0], ast.Name):
+            nm = st.targets[0].id
+            for n2 in ast.walk(f.node):
+                if isinstance(n2, ast.Call) and isinstance(n2.func, ast.Attribute) and n2.func.attr == "append" and n2.args and isinstance(n2.args[0], ast.Name) and n2.args[0].id == nm and getattr(n2, "lineno", 0) >= st.lineno:
+                    return norm(n2.func.value)
+        return None
+    lists = [feeds_append(node) for node, _, _, _ in slacks]
+    n_app = len([x for x in lists if x is not None])
+    if n_app >= 2 and len(set(x for x in lists if x)) == 1 and kinds == {"lo", "hi"}:
         rep.ok("R17.2", f"{f.local}: both slacks are appended to the inequality values")
     else:
         rep.bad("R17.2", "slack appends")
-        rep.finding("R17.2", f, f"{n_app} append(s) to c_ub", f.node.lineno, "a two-sided component must contribute two inequalities (lower and upper slack)")
-    # equality residual
+        rep.finding("R17.2", f, f"{n_app} slack append(s) to {sorted(set(x for x in lists if x))}", f.node.lineno, "a two-sided component must contribute two inequalities (lower and upper slack) to the same list")
+    # equality residual: value - 0.5 * (lower + upper)
+    def is_mid(v):
+        if isinstance(v, ast.BinOp) and isinstance(v.op, ast.Mult):
+            c, other = (v.left, v.right) if const_value(v.left) is not None else (v.right, v.left)
+            if const_value(c) == 0.5 and isinstance(other, ast.BinOp) and isinstance(other.op, ast.Add):
+                return side_of_expr(other.left) | side_of_expr(other.right) == {"lo", "hi"} and len(side_of_expr(other.left)) == 1 and len(side_of_expr(other.right)) == 1
+        return False
+    mids = set()
+    for node in ast.walk(f.node):
+        if isinstance(node, ast.Assign) and len(node.targets) == 1 and isinstance(node.targets[0], ast.Name) and is_mid(node.value):
+            mids.add(node.targets[0].id)
+
+    def is_mid_ref(e):
+        return (isinstance(e, ast.Name) and e.id in mids) or is_mid(e)
     ok = False
     for node in ast.walk(f.node):
-        if isinstance(node, ast.AugAssign) and isinstance(node.op, ast.Sub) and isinstance(node.target, ast.Name) and mentions(node.value, "midpoint"):
+        if isinstance(node, ast.AugAssign) and isinstance(node.op, ast.Sub) and is_mid_ref(node.value):
             ok = True
-        if isinstance(node, ast.Assign) and isinstance(node.value, ast.BinOp) and isinstance(node.value.op, ast.Sub) and mentions(node.value.right, "midpoint"):
+        if isinstance(node, ast.BinOp) and isinstance(node.op, ast.Sub) and is_mid_ref(node.right):
             ok = True
-    mid_ok = False
-    for node in ast.walk(f.node):
-        if isinstance(node, ast.Assign) and any(isinstance(t, ast.Name) and t.id == "midpoint" for t in node.targets):
-            v = node.value
-            if isinstance(v, ast.BinOp) and isinstance(v.op, ast.Mult) and const_value(v.left) == 0.5 and isinstance(v.right, ast.BinOp) and isinstance(v.right.op, ast.Add):
-                sides = set()
-                for s in (v.right.left, v.right.right):
-                    for sub in ast.walk(s):
-                        if isinstance(sub, ast.Subscript) and isinstance(sub.value, ast.Attribute) and sub.value.attr == "bounds":
-                            sides.add(const_value(sub.slice))
-                mid_ok = sides == {0, 1}
-    if ok and mid_ok:
+    if ok:
         rep.ok("R17.2", f"{f.local}: equality residual = value - 0.5*(lb + ub)")
     else:
         rep.bad("R17.2", "equality residual")
@@ -449,8 +487,8 @@ def r176(ctx, rep):
         if not isinstance(node, ast.If):
             continue
         for s in node.body:
-            if isinstance(s, ast.Assign) and len(s.targets) == 1 and isinstance(s.targets[0], ast.Name) and _short(s.value) in ("concatenate", "hstack") and s.value.args and norm(s.value.args[0]) == s.targets[0].id:
-                gates.append((node, s.targets[0].id))
+            if isinstance(s, ast.Assign) and len(s.targets) == 1 and isinstance(s.targets[0], ast.Name) and _short(s.value) in ("concatenate", "hstack") and s.value.args and isinstance(s.value.args[0], ast.Name):
+                gates.append((node, s.value.args[0].id))
     class _G:   # conditional-expression form of the same gate
         def __init__(self, test, lineno):
             self.test, self.lineno = test, lineno
@@ -458,8 +496,8 @@ def r176(ctx, rep):
         if isinstance(node, ast.Assign) and len(node.targets) == 1 and isinstance(node.targets[0], ast.Name) and isinstance(node.value, ast.IfExp):
             v = node.value
             for br, neg in ((v.body, False), (v.orelse, True)):
-                if _short(br) in ("concatenate", "hstack") and br.args and norm(br.args[0]) == node.targets[0].id:
-                    gates.append((_G(v.test, node.lineno), node.targets[0].id))
+                if _short(br) in ("concatenate", "hstack") and br.args and isinstance(br.args[0], ast.Name):
+                    gates.append((_G(v.test, node.lineno), br.args[0].id))
     if len(gates) < 2:
         # the assembly may be unconditional - then nothing gates it
         uncond = [s for s in ast.walk(f.node) if isinstance(s, ast.Assign) and _short(s.value) in ("concatenate", "hstack")]
